@@ -144,6 +144,7 @@ func history(id int, rng *rand.Rand) O {
 		before[k] = mach.SpecSnapshot(s)
 	}
 	us := core.NewUpdatableSpec(specs[1])
+	hot := core.NewUpdatableSpec(specs[1]) // a second updatable spec, swapped as fast as possible and only read by the nil-reader
 	rec := &recorder{}
 	runtime.GOMAXPROCS([]int{2, 4, 16}[rng.Intn(3)])
 	var wg sync.WaitGroup
@@ -173,6 +174,42 @@ func history(id int, rng *rand.Rand) O {
 			rec.add(O{"ev": "swap-call", "v": strconv.Itoa(k)})
 			us.SetSpec(next)
 			rec.add(O{"ev": "swap-ret", "v": strconv.Itoa(k)})
+		}
+	}()
+	// a reader that does nothing but ask the updatable spec for its current version, all the time: it must always get a
+	// complete version (never nil) - the sensor for an update that is not one atomic step
+	nilSeen := 0
+	wg.Add(1)
+	go func() {
+		defer wg.Done()
+		var holder core.Specter = hot
+		for {
+			select {
+			case <-stop:
+				return
+			default:
+			}
+			for k := 0; k < 2000; k++ {
+				if holder.Spec() == nil {
+					nilSeen++
+				}
+			}
+		}
+	}()
+	// ... and a second swapper that swaps as fast as it can between the versions that exist
+	wg.Add(1)
+	go func() {
+		defer wg.Done()
+		for k := 0; ; k++ {
+			select {
+			case <-stop:
+				return
+			default:
+			}
+			smu.Lock()
+			cur := specs[1]
+			smu.Unlock()
+			hot.SetSpec(cur)
 		}
 	}()
 	var wwg sync.WaitGroup
@@ -218,7 +255,7 @@ func history(id int, rng *rand.Rand) O {
 			unchanged = false
 		}
 	}
-	return O{"id": id, "kind": "specter", "initial": "1", "solo": solo, "events": rec.events, "specUnchanged": unchanged,
+	return O{"id": id, "kind": "specter", "initial": "1", "solo": solo, "events": rec.events, "specUnchanged": unchanged, "nilSeen": nilSeen,
 		"raw": enc.Canon(O{"versions": nv, "inputs": ni, "walkers": g, "derived": derived})}
 }
 
